@@ -88,6 +88,8 @@ TD16_QUICK = [('tdigest.rs', 'c16_td_insert_weighted_inner', 'complete: all fini
               ('tdigest.rs', 'c16_td_first_read_sees_backlog', 'bounded(one weighted insert, grid values): first read merges the backlog'),
               ('tdigest.rs', 'c16_td_insert_weighted_wrapper', 'complete: public wrapper, all finite x, all finite positive w (loop-free)'),
               ('tdigest.rs', 'c16_td_insert_weighted_concrete_grid', 'bounded(30 concrete (x, w) pairs with inexact products; constant folding only)'),
+              ('tdigest.rs', 'c16_td_overflowing_product_counts', 'bounded(one concrete insert whose product x*w overflows): the weight still counts'),
+              ('tdigest.rs', 'c16_td_repeated_value_weighted', 'bounded(two concrete weighted inserts of one value, no read in between)'),
               ('tdigest.rs', 'c19_td_clear_is_fresh', 'bounded(2 centroids + 1 backlog entry): clear() empties the digest'),
               ('tdigest.rs', 'c15_td_empty', 'complete: empty digest')]
 TD16_MERGE = [('tdigest.rs', 'c16_td_merge_1_1', 'bounded(1 centroid + 1 backlog entry; adversarial scale function)')]
